@@ -175,6 +175,7 @@ type World struct {
 	ldb                                   *litestream.DB
 	store                                 *litestream.Store
 	client                                *file.ReplicaClient
+	gate                                  *gateClient
 	arch                                  *file.ReplicaClient
 	rng                                   *rand.Rand
 	forceL0                               string    // "" random | "off" | "far": what chooseL0R returns (directed scenarios)
@@ -213,6 +214,60 @@ func (w *World) violateSoft(k, sig, detail string) {
 func (w *World) violate(sig, detail string) {
 	w.violations = append(w.violations, ImplViolation{Signature: sig, Detail: detail,
 		Replay: map[string]any{"history": strings.Join(w.trace, " "), "style": w.style, "levels": w.nlv, "page_size": w.pageSize}})
+}
+
+// gateClient lets ONE listing of one level be computed and then held back (until released or a
+// timeout), so that a cache fill of DB.MaxLTXFileInfo can be made to span a whole compaction of
+// that level (seed C06d: the cache lock no longer held across the listing).
+type gateClient struct {
+	litestream.ReplicaClient
+	mu      sync.Mutex
+	level   int
+	listed  chan struct{}
+	release chan struct{}
+}
+
+func (g *gateClient) arm(level int) (listed, release chan struct{}) {
+	g.mu.Lock()
+	defer g.mu.Unlock()
+	g.level, g.listed, g.release = level, make(chan struct{}), make(chan struct{})
+	return g.listed, g.release
+}
+
+func (g *gateClient) disarm() {
+	g.mu.Lock()
+	g.listed = nil
+	g.mu.Unlock()
+}
+
+func (g *gateClient) LTXFiles(ctx context.Context, level int, seek ltx.TXID, useMetadata bool) (ltx.FileIterator, error) {
+	g.mu.Lock()
+	armed := g.listed != nil && g.level == level
+	listed, release := g.listed, g.release
+	if armed {
+		g.listed = nil
+	}
+	g.mu.Unlock()
+	if !armed {
+		return g.ReplicaClient.LTXFiles(ctx, level, seek, useMetadata)
+	}
+	itr, err := g.ReplicaClient.LTXFiles(ctx, level, seek, useMetadata)
+	if err != nil {
+		close(listed)
+		return nil, err
+	}
+	var infos []*ltx.FileInfo
+	for itr.Next() {
+		it := *itr.Item()
+		infos = append(infos, &it)
+	}
+	_ = itr.Close()
+	close(listed)
+	select {
+	case <-release:
+	case <-time.After(300 * time.Millisecond):
+	}
+	return ltx.NewFileInfoSliceIterator(infos), nil
 }
 
 func newWorld(dir string, rng *rand.Rand, start time.Time) (*World, error) {
@@ -260,7 +315,8 @@ func newWorld(dir string, rng *rand.Rand, start time.Time) (*World, error) {
 	ldb.BusyTimeout = 200 * time.Millisecond
 	ldb.Logger = QuietLogger()
 	c := file.NewReplicaClient(w.replicaDir)
-	ldb.Replica = litestream.NewReplicaWithClient(ldb, c)
+	w.gate = &gateClient{ReplicaClient: c}
+	ldb.Replica = litestream.NewReplicaWithClient(ldb, w.gate)
 	ldb.Replica.MonitorEnabled = false
 	c.Replica = ldb.Replica
 	w.client = c
@@ -641,6 +697,42 @@ func (w *World) opCompact(level int) {
 		}
 		w.afterCreate(level, info)
 	}
+}
+
+// opCompactRaced: Compact(1) while another goroutine fills the cold max-file cache of level 1
+// (DB.MaxLTXFileInfo, as the level-2 compaction or a status query does after a restart) with a
+// listing taken BEFORE the compaction and delivered after it (or after 300 ms when the cache lock
+// keeps the compaction waiting, as on the unchanged tree). Whatever the order, the cache must end up
+// naming the newest level-1 file: the following sync + Compact(1) must continue after it. For the
+// model this is Compact(1), a sync and Compact(1).
+func (w *World) opCompactRaced() {
+	w.opSync()
+	if len(w.violations) > 0 {
+		return
+	}
+	w.ldb.VerifClearMaxLTXCache(1)
+	listed, release := w.gate.arm(1)
+	done := make(chan struct{})
+	go func() {
+		defer close(done)
+		ctx, cancel := context.WithTimeout(ctxb, 30*time.Second)
+		defer cancel()
+		_, _ = w.ldb.MaxLTXFileInfo(ctx, 1)
+	}()
+	select {
+	case <-listed:
+	case <-time.After(2 * time.Second):
+	}
+	w.gate.disarm()
+	w.opCompact(1)
+	close(release)
+	<-done
+	w.counts["raced_cache_fill_compactions"]++
+	if len(w.violations) > 0 {
+		return
+	}
+	w.opSync()
+	w.opCompact(1)
 }
 
 func l0rStr(l []tval) string {
@@ -1368,7 +1460,11 @@ func runHistory(dir string, rng *rand.Rand, steps int, start time.Time, index in
 		case k < 34:
 			w.opSync()
 		case k < 48:
-			w.opCompact(1 + pickLevel(rng, w.nlv))
+			if focus == "c06" && rng.Intn(12) == 0 {
+				w.opCompactRaced()
+			} else {
+				w.opCompact(1 + pickLevel(rng, w.nlv))
+			}
 		case k < 58:
 			lv := 1 + pickLevel(rng, w.nlv)
 			if rng.Intn(4) == 0 {
